@@ -49,11 +49,14 @@ def roundtrip_cases(tier, seed, res):
                            "1 mm; molodensky 5 mm) on the ground: angular residuals x semimajor axis, projected residuals divided by the local "
                            "linear scale (finite differences); longitudes compared modulo 360 degrees")
     res.assumptions.append("round trips: somerc and omerc have no documented domain: +-3 degrees (somerc) / +-6 x +-3 degrees (omerc) around the centre; "
-                           "geodesic reversible up to 10 000 km")
+                           "geodesic reversible up to 10 000 km; cart and geodesic are not evaluated on `unitsphere` (metre lattices of heights "
+                           "and distances are meaningless on a sphere of radius 1 m)")
     for g in groups:
         wst = g["worst"]
         res.add_violation({"suite": "roundtrip", "what": g["what"], "def": wst.get("def"), "order": g["order"], "family": g["fam"],
                            "shape": g["shape"], "failing": g["failing"], "of": g["of"], "ellipsoids": g["ellps"],
                            "expected": "residual <= %g m" % wst.get("tol_m", 0), "observed": wst.get("detail"),
-                           "signature": "roundtrip|%s|%s|%s|%s" % (g["fam"], g["shape"], g["order"], g["what"])})
+                           # a panic / refusal tied to an ellipsoid name is one finding, whatever the operator
+                           "signature": ("roundtrip|%s|ellps=%s" % (g["what"], ",".join(g["ellps"])) if g["what"] in ("panic", "opfail") and g["ellps"]
+                                         else "roundtrip|%s|%s|%s|%s" % (g["fam"], g["shape"], g["order"], g["what"]))})
     return summary, groups
